@@ -13,7 +13,12 @@ package main
 //           access log, compiled middleware stack (by reflection), ValidDirectives("http")
 //   order : behavioural probes of the documented nesting of one pair of directives, lines in random order,
 //           optionally after earlier loads in the same process
-//   dirs  : ValidDirectives("http") after a history of loads
+//   dirs  : ValidDirectives("http"), the registered http plugins and the compiled stack of a fixed site after
+//           a history of http loads (valid / validate-only / reload; refused for a misspelt directive, a
+//           syntax error, a failing setup)
+//   hist  : a history of loads of the probe server type in one process over one shared directive slice
+//   text  : a configuration printed by C10's printer in two line orders through casketfile.Parse: the
+//           Dispenser view of every directive group  vs  C10's parser model and C09's grouping of the AST
 
 import (
 	"bytes"
@@ -75,6 +80,25 @@ type c09In struct {
 	Pre   []string `json:"pre,omitempty"` // server-block bodies loaded before the case; prefix "S:" start+stop, "R:" reload of a running site, "V:" or none: validate only
 	// hist
 	Steps []c09Step `json:"steps,omitempty"`
+	// text
+	TPre  []c09ABlock `json:"tpre,omitempty"`
+	TPost []c09ABlock `json:"tpost,omitempty"`
+	TMain *c09ABlock  `json:"tmain,omitempty"`
+}
+
+// text cases: tokens as written (text, followed by a line break), lines, blocks
+type c09LT struct {
+	T  string `json:"t"`
+	NL bool   `json:"nl,omitempty"`
+}
+type c09ALine struct {
+	H c09LT   `json:"h"`
+	R []c09LT `json:"r,omitempty"`
+}
+type c09ABlock struct {
+	Key   c09LT      `json:"key"`
+	Keys  []c09LT    `json:"keys,omitempty"`
+	Lines []c09ALine `json:"lines"`
 }
 
 type c09Step struct {
@@ -110,6 +134,8 @@ func c09Vocab() []string {
 	add(c09StdNames...)
 	add(c09Words...)
 	add(c09ProbeNames...)
+	add(c09TextWords...)
+	add("a.example", "a.example,", "b.example", ":80", "z.example", "{$C09D}", "{%C09D%}", "log", "imported")
 	add("alpha", "beta", "gamma", "Delta", "e.f", "x-y", "imported", "x", "y", "/p", "two words", "z", "sub", "v", "FAIL", "pz", "127.0.0.1:0",
 		"q r", "m\nn", "bogus", "/x", "a", "<no context>", "")
 	for i := 0; i < 12; i++ {
@@ -336,6 +362,9 @@ func c09Register() {
 	c09Once.Do(func() {
 		casket.Quiet = true
 		log.SetOutput(io.Discard)
+		for _, kv := range c09Env {
+			os.Setenv(kv[0], kv[1])
+		}
 		casket.RegisterServerType(c09Type, casket.ServerType{
 			Directives: func() []string { return c09ProbeDirs },
 			NewContext: func(inst *casket.Instance) casket.Context { return c09Ctx{} },
@@ -1095,6 +1124,141 @@ func c09RunHist(in *c09In) Result {
 		Nontrivial: len(in.Steps) >= 2, Class: fmt.Sprintf("hist:steps=%d", len(in.Steps))}
 }
 
+// ---- text cases: a block printed by C10's printer (every token quoted; a space or a line break
+// after it) in two line orders, through casketfile.Parse; observed: the Dispenser view of each group
+var c09Env = [][2]string{{"C09D", "header"}, {"C09V", "two\nlines"}}
+
+func c09PrintToks(ts []c09LT) string {
+	var sb strings.Builder
+	for _, t := range ts {
+		sb.WriteString(`"` + strings.ReplaceAll(t.T, `"`, `\"`) + `"`)
+		if t.NL {
+			sb.WriteString("\n")
+		} else {
+			sb.WriteString(" ")
+		}
+	}
+	return sb.String()
+}
+func c09FlatBlock(b c09ABlock) []c09LT {
+	out := append([]c09LT{b.Key}, b.Keys...)
+	out = append(out, c09LT{"{", true})
+	for _, l := range b.Lines {
+		out = append(out, l.H)
+		out = append(out, l.R...)
+	}
+	return append(out, c09LT{"}", true})
+}
+func c09LTTerm(t c09LT) string { return cPair(c09S(t.T), cBool(t.NL)) }
+func c09LTList(ts []c09LT) string {
+	it := make([]string, len(ts))
+	for i, t := range ts {
+		it[i] = c09LTTerm(t)
+	}
+	return cList(it)
+}
+func c09ALinesTerm(ls []c09ALine) string {
+	it := make([]string, len(ls))
+	for i, l := range ls {
+		it[i] = cPair(c09LTTerm(l.H), c09LTList(l.R))
+	}
+	return cList(it)
+}
+func c09ABlocksTerm(bs []c09ABlock) string {
+	it := make([]string, len(bs))
+	for i, b := range bs {
+		it[i] = "(" + c09LTTerm(b.Key) + ", " + c09LTList(b.Keys) + ", " + c09ALinesTerm(b.Lines) + ")"
+	}
+	return cList(it)
+}
+
+func c09TextObserve(text string, nblocks, idx int) (string, map[string][]string, string) {
+	blocks, err := casketfile.Parse("Casketfile", strings.NewReader(text), nil)
+	if err != nil {
+		return "None", nil, err.Error()
+	}
+	if len(blocks) != nblocks {
+		return "None", nil, fmt.Sprintf("%d blocks, expected %d", len(blocks), nblocks)
+	}
+	b := blocks[idx]
+	var dirs []string
+	for d := range b.Tokens {
+		dirs = append(dirs, d)
+	}
+	sort.Strings(dirs)
+	human := map[string][]string{}
+	var groups []string
+	for _, d := range dirs {
+		toks := b.Tokens[d]
+		dl := casketfile.NewDispenserTokens("", toks)
+		da := casketfile.NewDispenserTokens("", toks)
+		dl.Next()
+		da.Next()
+		var it []string
+		for k, t := range toks {
+			nl, sa := false, false
+			if k > 0 {
+				if nl = dl.NextLine(); !nl {
+					dl.Next()
+				}
+				if sa = da.NextArg(); !sa {
+					da.Next()
+				}
+			}
+			it = append(it, cPair(c09S(t.Text), cPair(cBool(nl), cBool(sa))))
+			human[d] = append(human[d], fmt.Sprintf("%q nl=%v arg=%v", t.Text, nl, sa))
+		}
+		groups = append(groups, cPair(c09S(d), cList(it)))
+	}
+	return "(Some " + cList(groups) + ")", human, ""
+}
+
+func c09RunText(in *c09In) Result {
+	c09Register()
+	if in.TMain == nil {
+		return Result{Term: "(COrder 0%N (0%N, false) [])", Obs: "no block", Class: "text:bad", Sig: "text:bad", Direct: "text case without a block"}
+	}
+	build := func(lines []c09ALine) string {
+		var ts []c09LT
+		for _, b := range in.TPre {
+			ts = append(ts, c09FlatBlock(b)...)
+		}
+		ts = append(ts, c09FlatBlock(c09ABlock{in.TMain.Key, in.TMain.Keys, lines})...)
+		for _, b := range in.TPost {
+			ts = append(ts, c09FlatBlock(b)...)
+		}
+		return c09PrintToks(ts)
+	}
+	var permuted []c09ALine
+	for _, i := range in.Perm {
+		if i >= 0 && i < len(in.TMain.Lines) {
+			permuted = append(permuted, in.TMain.Lines[i])
+		}
+	}
+	tA, tB := build(in.TMain.Lines), build(permuted)
+	n := len(in.TPre) + 1 + len(in.TPost)
+	oA, hA, eA := c09TextObserve(tA, n, len(in.TPre))
+	oB, hB, eB := c09TextObserve(tB, n, len(in.TPre))
+	var env []string
+	for _, kv := range c09Env {
+		env = append(env, cPair(cStr(kv[0]), cStr(kv[1])))
+	}
+	term := cApp("CText", cList(env), c09ABlocksTerm(in.TPre), c09ABlocksTerm(in.TPost), c09LTTerm(in.TMain.Key), c09LTList(in.TMain.Keys),
+		c09ALinesTerm(in.TMain.Lines), cNatList(in.Perm), cStr(tA), cStr(tB), oA, oB)
+	names := map[string]int{}
+	for _, l := range in.TMain.Lines {
+		names[os.Expand(strings.NewReplacer("{$", "${").Replace(l.H.T), os.Getenv)]++
+	}
+	rep := false
+	for _, c := range names {
+		if c >= 2 {
+			rep = true
+		}
+	}
+	return Result{Term: term, Obs: map[string]interface{}{"textA": tA, "textB": tB, "groupsA": hA, "groupsB": hB, "errA": eA, "errB": eB},
+		Sig: "text", Nontrivial: rep && len(names) >= 2, Class: fmt.Sprintf("text:lines=%d:repeated=%v", len(in.TMain.Lines), rep)}
+}
+
 func c09Run(in0 interface{}) Result {
 	in := in0.(*c09In)
 	switch in.Kind {
@@ -1110,6 +1274,8 @@ func c09Run(in0 interface{}) Result {
 		return c09RunDirs(in)
 	case "hist":
 		return c09RunHist(in)
+	case "text":
+		return c09RunText(in)
 	}
 	panic("bad kind " + in.Kind)
 }
@@ -1507,6 +1673,92 @@ func c09GenBlocks(r *Rand, dirs []string) []c09Block {
 	return blocks
 }
 
+var c09TextWords = []string{"/", "/a", "X-A", "1", "{path}", "a b", "x\ny", "", `say "hi"`, "import", "-Server", "é", "k=v", "{$C09V}", "{%C09D%}", "a{$C09E}b", "#x", "two  spaces"}
+
+func c09GenALine(r *Rand, name string) c09ALine {
+	var ts []c09LT
+	arg := func() string { return r.Pick(c09TextWords) }
+	for k := r.Intn(4); k > 0; k-- {
+		ts = append(ts, c09LT{arg(), false})
+	}
+	var block func(depth int)
+	block = func(depth int) {
+		ts = append(ts, c09LT{"{", true})
+		for k := r.Intn(4); k > 0; k-- {
+			w := arg()
+			if w == "import" {
+				w = "imported"
+			}
+			ts = append(ts, c09LT{w, false})
+			for a := r.Intn(3); a > 0; a-- {
+				ts = append(ts, c09LT{arg(), false})
+			}
+			if depth < 2 && r.Chance(15) {
+				block(depth + 1)
+			} else {
+				ts[len(ts)-1].NL = true
+			}
+		}
+		ts = append(ts, c09LT{"}", true})
+	}
+	l := c09ALine{H: c09LT{name, false}}
+	if r.Chance(35) {
+		if len(ts) > 0 && r.Chance(10) { // the brace opens on the next physical line
+			ts[len(ts)-1].NL = true
+		}
+		block(0)
+	}
+	if len(ts) == 0 {
+		l.H.NL = true
+	} else {
+		ts[len(ts)-1].NL = true
+	}
+	l.R = ts
+	return l
+}
+
+func c09GenText(r *Rand, out *[]interface{}) {
+	pool := []string{"header", "root", "gzip", "{$C09D}", "x-y", "log", "{%C09D%}"}
+	var names []string
+	for k := r.Range(1, 4); k > 0; k-- {
+		names = append(names, r.Pick(pool))
+	}
+	main := &c09ABlock{Key: c09LT{"a.example", false}}
+	if r.Chance(30) {
+		main.Key = c09LT{"a.example,", r.Bool()}
+		main.Keys = []c09LT{{"b.example", false}}
+	}
+	var ds []string
+	for k := r.Range(1, 7); k > 0; k-- {
+		n := r.Pick(names)
+		main.Lines = append(main.Lines, c09GenALine(r, n))
+		ds = append(ds, os.Expand(strings.NewReplacer("{$", "${", "{%", "${", "%}", "}").Replace(n), func(k string) string {
+			for _, kv := range c09Env {
+				if kv[0] == k {
+					return kv[1]
+				}
+			}
+			return ""
+		}))
+	}
+	in := &c09In{Kind: "text", TMain: main}
+	small := func(key string) c09ABlock {
+		return c09ABlock{Key: c09LT{key, false}, Lines: []c09ALine{c09GenALine(r, "gzip"), c09GenALine(r, "root")}}
+	}
+	if r.Chance(40) {
+		in.TPre = []c09ABlock{small(":80")}
+	}
+	if r.Chance(40) {
+		in.TPost = []c09ABlock{small("z.example")}
+	}
+	if r.Chance(70) {
+		in.Perm = c09AdmissiblePerm(r, ds)
+	} else {
+		in.Perm = r.Perm(len(ds))
+	}
+	*out = append(*out, in)
+}
+
 func c09GenHist(r *Rand, out *[]interface{}) {
 	c09Register()
 	nd := r.Range(2, 8)
@@ -1542,9 +1794,9 @@ func c09GenOrder(r *Rand, out *[]interface{}, all bool) {
 func c09Gen(r *Rand, tier string) []interface{} {
 	c09Register()
 	var out []interface{}
-	nParse, nMal, nExec, nSite, nOrderRounds, nDirs, nHist := 500, 500, 900, 110, 2, 40, 300
+	nParse, nMal, nExec, nSite, nOrderRounds, nDirs, nHist, nText := 500, 500, 900, 110, 2, 40, 250, 300
 	if tier == "thorough" {
-		nParse, nMal, nExec, nSite, nOrderRounds, nDirs, nHist = 6000, 6000, 10000, 1200, 20, 400, 3000
+		nParse, nMal, nExec, nSite, nOrderRounds, nDirs, nHist, nText = 6000, 6000, 10000, 1200, 20, 400, 3000, 4000
 	}
 	out = append(out, &c09In{Kind: "dirs"})
 	// every probe once in written-canonical and once in reversed file order
@@ -1578,6 +1830,9 @@ func c09Gen(r *Rand, tier string) []interface{} {
 	for i := 0; i < nHist; i++ {
 		c09GenHist(r, &out)
 	}
+	for i := 0; i < nText; i++ {
+		c09GenText(r, &out)
+	}
 	out = append(out, &c09In{Kind: "dirs"})
 	return out
 }
@@ -1585,7 +1840,7 @@ func c09Gen(r *Rand, tier string) []interface{} {
 func init() {
 	register(&Property{
 		ID: "C09", Imports: "V.Lib V.Gen_C09 V.C09_Model", Judge: "judge", Shard: 150,
-		Rule: "parse: generated server blocks (1-8 lines over 1-5 directive names, brace blocks, quoted/multi-line tokens, comments) through casketfile.Parse in written, admissibly permuted and arbitrarily permuted line order + a malformed token stream; exec: casket.Start/ValidateAndExecuteDirectives on a probe server type with a per-case directive list (1-8 names), 1-3 blocks x 1-3 keys, failing setups/callbacks; site: real http sites from a pool of 45 directive lines in two admissible line orders, 32-request battery + access log + compiled middleware stack; order: 22 behavioural probes of documented directive pairs with lines in random order, optionally after earlier loads; dirs: ValidDirectives after load histories. non-trivial = parse: a repeated directive interleaved with another one or a parse error; exec: >= 2 calls; site: starts and uses >= 3 directives; order: always; dirs: after >= 1 load",
+		Rule: "parse: generated server blocks (1-8 lines over 1-5 directive names, brace blocks, quoted/multi-line tokens, comments) through casketfile.Parse in written, admissibly permuted and arbitrarily permuted line order + a malformed token stream; text: C10-printed configurations (every token quoted; 1-7 lines over 1-4 names incl. names written as environment references, sub-blocks to depth 3, multi-line / empty / env-valued tokens, optional blocks in front and behind, 1-2 keys) in two line orders (70% admissible) through casketfile.Parse — Dispenser view (text, NextLine, NextArg) of every group vs the C10 parser model on the model-printed text and vs C09 grouping of the AST; exec: casket.Start/ValidateAndExecuteDirectives on a probe server type with a per-case directive list (1-8 names), 1-3 blocks x 1-3 keys, failing setups/callbacks; hist: 2-6 loads (Start / validate-only / Instance.Restart) of the probe server type in one process over one shared directive slice, with unknown directives, syntax errors, failing setups and callbacks — outcome class, trace and the slice after every load vs the state-threaded model and vs the fresh-process oracle; site: real http sites from a pool of 45 directive lines in two admissible line orders, 32-request battery + access log + compiled middleware stack (= documented sequence); order: 74 behavioural probes (22 hand-written + every pair the property names: 4 gates x 6 content handlers incl. the static file server and a live FastCGI responder, 4 wrappers x 6, 3 rewriters x internal, request_id x log) with lines in written, reversed and random order, optionally after a history of http loads; dirs: ValidDirectives, the registered http directive plugins and the compiled stack of a fixed 24-directive site after histories of 0-4 http loads (validate / start+stop / reload of a running site; valid, misspelt directive, syntax error, failing setup). non-trivial = parse: a repeated directive interleaved with another one or a parse error; text: a repeated directive and >= 2 names; exec: >= 2 calls; hist: >= 2 loads; site: starts and uses >= 3 directives; order: always; dirs: after >= 1 load",
 		Gen:    c09Gen,
 		Decode: func(raw json.RawMessage) (interface{}, error) { in := &c09In{}; return in, json.Unmarshal(raw, in) },
 		Run:    c09Run,
